@@ -125,12 +125,12 @@ func TestPadAndCBC(t *testing.T) {
 	key := unhex(t, "2b7e151628aed2a6abf7158809cf4f3c")
 	iv := unhex(t, "000102030405060708090a0b0c0d0e0f")
 	pt := unhex(t, "6bc1bee22e409f96e93d7e117393172aae2d8a571e03ac9c9eb76fac45af8e51")
-	want := unhex(t, "7649abac8119b246cee98e9b12e9197d5086cb9b507276d6f3d4e1ec8d8eb4c6") // hand-checkable only through the round trip below if mistyped
+	want := unhex(t, "7649abac8119b246cee98e9b12e9197d")
 	ct, err := CBCEncrypt(key, iv, pt)
 	if err != nil {
 		t.Fatal(err)
 	}
-	if !bytes.Equal(ct[:16], want[:16]) {
+	if !bytes.Equal(ct[:16], want) {
 		t.Fatalf("SP 800-38A F.2.1 block 1 = %x", ct[:16])
 	}
 	back, err := CBCDecrypt(key, iv, ct)
